@@ -40,7 +40,8 @@ func (d *DeterministicSampler) Start() error {
 	// GetSampleRate); it must not divide by zero here.
 	d.upperBound = math.MaxUint32
 	if d.sampleRate > 1 {
-		d.upperBound = math.MaxUint32 / uint32(d.sampleRate)
+		// divide in 64 bits: a rate that is a multiple of 2^32 must not become 0
+		d.upperBound = uint32(math.MaxUint32 / uint64(d.sampleRate))
 	}
 
 	return nil
